@@ -45,6 +45,25 @@ def run(pid, tier, replay=None):
     with open(files[0]) as fh:
         ck.sample(json.loads(fh.readline()))
     ck.cov["rule"] = "one case = one (degree, duration, boundary data with non-zero derivatives) or one (coefficient vector of length 0..5(6), evaluation point); every case is non-trivial"
+    # precision of the evaluation in each of the three element types (float, double, long double)
+    xfiles = []
+    for real in (4, 8, 16):
+        xexe = vlib.cc_build(sc.path("polyx_%d" % real), [os.path.join(vlib.HARNESS, "polyx_h.c")] + vlib.repo_src("poly.c", "trajpoly3.c", "a.c"), sc, real=real, opt="-O1")
+        xo = sc.path("px-%d.ndjson" % real)
+        rx = vlib.run_harness([xexe, xo], timeout=300)
+        if rx.returncode != 0:
+            if rx.returncode in (97, 98, 99, -6, -11):
+                ck.violation("crash:polyx", {"what": "sanitizer abort in the polynomial routines (real width %d)" % real, "stderr": (rx.stderr or "")[-1200:]})
+                continue
+            raise Broken("polyx harness failed (width %d): %s" % (real, (rx.stderr or "")[-800:]))
+        xfiles.append(xo)
+    nx, xbad = vlib.validate_collect(os.path.join(SPECDIR, "PolyTrace.tla"), os.path.join(SPECDIR, "PolyTrace.cfg"), xfiles, sc)
+    for f_, idx, ev in xbad:
+        ck.violation("trace:%s:width%s" % (ev.get("f"), ev.get("width")), {"what": "evaluation is not the Horner value in the element type: the part of the result below 2^-K is lost or wrong", "event": ev})
+    ck.cov["traces_validated_against_impl"] += nx
+    ck.cov["evaluations"] += nx + len(xbad)
+    ck.part("precision_in_element_type", widths=[4, 8, 16], events=nx + len(xbad), rejected=len(xbad))
+    ck.assumptions.append("precision part: coefficients A + m*2^-K with K = 16 / 45 / 56 for float / double / long double, integer evaluation points: every intermediate exactly representable in the element type, exact expectation H + M*2^-K")
     # the C++ member functions of the same structures must behave like the C functions (Facade.tla)
     from checks import facade
     facade.part(ck, sc, ['trajpoly3', 'trajpoly5', 'trajpoly7'])
